@@ -115,12 +115,13 @@ def burn(y, duration, mu, acc, frame, hmax=1.0, tol_v=1e-7):
     return out, err
 
 
-def propagate_with_burns(y0, t_end, mu, burns=(), impulses=()):
+def propagate_with_burns(y0, t_end, mu, burns=(), impulses=(), hmax=1.0):
     """State at t_end (seconds from the epoch of y0).
 
     burns:    iterable of (t_start, t_stop, acc_vector, frame) - thrust on [t_start, t_stop)
     impulses: iterable of (t, dv_vector, frame) - velocity jump at t, axes taken from the state at t
     Events must not overlap each other.  Returns (state, err) with err the largest Richardson estimate.
+    hmax: first step size tried inside burns (halved until the Richardson estimate is small enough).
     """
     events = [(b[0], 0, b) for b in burns] + [(i[0], 1, i) for i in impulses]
     events.sort(key=lambda e: (e[0], e[1]))
@@ -139,7 +140,7 @@ def propagate_with_burns(y0, t_end, mu, burns=(), impulses=()):
             y[3:] += to_inertial(ev[1], y, ev[2].upper() if isinstance(ev[2], str) else None)
         else:
             stop = min(ev[1], t_end)
-            y, e = burn(y, stop - t, mu, ev[2], ev[3])
+            y, e = burn(y, stop - t, mu, ev[2], ev[3], hmax=hmax)
             err = max(err, e)
             t = stop
     y = tb.propagate_uv(y, t_end - t, mu)
